@@ -465,6 +465,31 @@ func c14Malformed() []c14offer {
 		"SERVER_NO_CONTEXT_TAKEOVER", "client_max_window_bits ", "mode", "client_no_context_takeover\x00"} {
 		out = append(out, pmd(kflag(k)), pmd(kv(k, "10")), pmd(kflag(c14SNCT), kflag(k)), pmd(kflag(k), kv(c14CMWB, "10")))
 	}
+	// look-alike names: every known name with ONE byte replaced (by 'x', by the other case, by the byte of the
+	// server_/client_ twin), at every position: same length, same prefix or suffix, still unknown
+	for _, k := range keys {
+		for i := 0; i < len(k); i++ {
+			subs := []byte{'x', k[i] ^ 0x20}
+			if i < 6 {
+				subs = append(subs, "client"[i], "server"[i], '_')
+			}
+			for _, ch := range subs {
+				if ch == k[i] {
+					continue
+				}
+				n := []byte(k)
+				n[i] = ch
+				if string(n) == c14SNCT || string(n) == c14CNCT || string(n) == c14SMWB || string(n) == c14CMWB {
+					continue
+				}
+				out = append(out, pmd(kflag(string(n))), pmd(kv(string(n), "10")))
+			}
+		}
+	}
+	for _, k := range []string{"clnt___max_window_bits", "proxy__no_context_takeover", "sxxxxx_max_window_bits", "xxxxxx_max_window_bits",
+		"server_max_window_bitz", "server_xxx_window_bits", "s_____________________", "client_no_context_takeoveR", "servernocontexttakeover"} {
+		out = append(out, pmd(kflag(k)), pmd(kv(k, "10")), pmd(kflag(c14SNCT), kv(k, "9")))
+	}
 	// more than 8 parameters (httphead switches to its dynamic storage)
 	var many []c14param
 	for i := 0; i < 9; i++ {
